@@ -733,6 +733,23 @@ func (c *Ctx) evalCall(e *Expr) Val {
 			return scalar(x.Arr, SInt, types.Typ[types.UnsafePointer])
 		}
 		return c.errorf("arr of %v", x)
+	case "lo", "hi": // absolute index bounds of a slice within its backing array
+		x := c.eval(e.Kids[0])
+		if x.Kind == VSlice {
+			if e.S == "lo" {
+				return scalar(x.Off, SInt, types.Typ[types.Int])
+			}
+			return scalar("(+ "+x.Off+" "+x.Len+")", SInt, types.Typ[types.Int])
+		}
+		return c.errorf("%s of %v", e.S, x)
+	case "at": // at(s, j): element at ABSOLUTE index j of s's backing array (quantify with lo(s) <= j < hi(s))
+		x := c.eval(e.Kids[0])
+		j := c.eval(e.Kids[1])
+		if x.Kind == VSlice {
+			et := x.GoT.Underlying().(*types.Slice).Elem()
+			return c.loadPure(&Loc{Base: elemBase(et), Idx: []string{x.Arr, c.intTerm(j)}, T: et})
+		}
+		return c.errorf("at of %v", x)
 	case "off":
 		x := c.eval(e.Kids[0])
 		if x.Kind == VSlice {
